@@ -14,6 +14,24 @@ import (
 
 var PI = Var("PI", SReal)
 
+// realDiv: division by a non-literal is an uninterpreted quotient q with b != 0 => q*b = a
+// (helps the nonlinear solvers; x/0 is unspecified in SMT-LIB as well)
+func (x *Exec) realDiv(s *State, a, b *Term) *Term {
+	a, b = ToReal(a), ToReal(b)
+	if b.rat != nil {
+		if b.rat.Sign() == 0 {
+			return x.uf("rdiv", SReal, a, b)
+		}
+		if a.rat != nil {
+			return RealLit(new(big.Rat).Quo(a.rat, b.rat))
+		}
+		return Arith("*", RealLit(new(big.Rat).Inv(b.rat)), a)
+	}
+	inv := x.uf("rinv", SReal, b)
+	s.assume(Implies(Not(Eq(b, RealLitF(0))), Eq(Arith("*", inv, b), RealLitF(1))))
+	return Arith("*", a, inv)
+}
+
 func (x *Exec) isGlobal(v *types.Var) bool {
 	return v.Pkg() != nil && v.Parent() == v.Pkg().Scope()
 }
@@ -278,7 +296,7 @@ func (x *Exec) binop(s *State, op token.Token, l, r *Term, lt, rt types.Type, p 
 			x.oblige(s, "div", Not(Eq(r, IntLit(0))), p, "integer division by zero")
 			return x.intDiv(l, r)
 		}
-		return Arith("/", l, r)
+		return x.realDiv(s, l, r)
 	case token.REM:
 		x.oblige(s, "div", Not(Eq(r, IntLit(0))), p, "integer modulo by zero")
 		q := x.intDiv(l, r)
